@@ -32,6 +32,12 @@ func OpDisconnect(p int64) hx.Zs             { return hx.Zs{7, p} }
 func OpAddRespCb(e []int64, f, ctr, cb int64) hx.Zs {
 	return append(hx.Zs{9, f, ctr, cb}, eaddrEnc(e)...)
 }
+
+// OpParRegister: callback cb for counter ctr on feature (e, f) from k goroutines at once
+func OpParRegister(e []int64, f, ctr, cb, k int64) hx.Zs {
+	return append(hx.Zs{15, f, ctr, cb, k}, eaddrEnc(e)...)
+}
+
 func OpAddResultCb(e []int64, f, cb int64) hx.Zs { return append(hx.Zs{10, f, cb}, eaddrEnc(e)...) }
 func OpQFactory(t int64) hx.Zs                   { return hx.Zs{11, t} }
 
@@ -704,6 +710,8 @@ func CallbackHistory(r *hx.Rng, tier string) []hx.Zs {
 		}
 		if r.Chance(1, 5) {
 			h = append(h, OpAddResultCb(t.Ent, t.Id, int64(r.Intn(NCallbacks))))
+		} else if r.Chance(1, 6) {
+			h = append(h, OpParRegister(t.Ent, t.Id, ctrs[r.Intn(len(ctrs))], int64(r.Intn(5)), int64(r.Range(2, 4))))
 		} else {
 			h = append(h, OpAddRespCb(t.Ent, t.Id, ctrs[r.Intn(len(ctrs))], int64(r.Intn(5))))
 		}
@@ -822,7 +830,12 @@ func ParHistory(r *hx.Rng, tier string) []hx.Zs {
 			perm[j], perm[k] = perm[k], perm[j]
 		}
 		for _, cb := range perm[:r.Range(1, 6)] {
-			h = append(h, OpAddRespCb(t.Ent, t.Id, ctr, cb))
+			if r.Chance(1, 3) {
+				// the same registration from 2-4 goroutines at once: one is accepted, the callback fires once
+				h = append(h, OpParRegister(t.Ent, t.Id, ctr, cb, int64(r.Range(2, 4))))
+			} else {
+				h = append(h, OpAddRespCb(t.Ent, t.Id, ctr, cb))
+			}
 		}
 		// the arrival: from the same remote feature of every peer, device part omitted
 		src := RFeat{Ent: e, Id: 1, Type: 1, Role: 1}
@@ -945,7 +958,11 @@ func SeqHistory(r *hx.Rng, tier string) []hx.Zs {
 			next++
 			ctrs = append(ctrs, next)
 			for j := 0; j < r.Range(1, 2); j++ {
-				h = append(h, OpAddRespCb(t.Ent, t.Id, next, int64(r.Intn(NCallbacks-1))))
+				if r.Chance(1, 3) {
+					h = append(h, OpParRegister(t.Ent, t.Id, next, int64(r.Intn(NCallbacks-1)), int64(r.Range(2, 3))))
+				} else {
+					h = append(h, OpAddRespCb(t.Ent, t.Id, next, int64(r.Intn(NCallbacks-1))))
+				}
 			}
 		}
 		var arr []struct {
